@@ -673,8 +673,27 @@ def extract_lalrpop_action(repo, spec, ex):
 _DIR = re.compile(r'/\*@(type|macro\?|macro|fn|body|expr|action|let|arm)(?![A-Za-z])(.*?)@\*/', re.S)
 
 
+_INC = re.compile(r'/\*@include\s+(\S+)\s*::\s*(\S+)\s*\.\.\s*(\S+)\s*@\*/')
+
+
+def _expand_includes(template_text):
+    """`/*@include <unit>/<file> :: BEGIN-MARK .. END-MARK @*/` -> the text of that other TEMPLATE between the two marker comments
+    (`// @@BEGIN-MARK` / `// @@END-MARK`), so two units can share specification text and contracts without copies drifting apart."""
+    units_dir = os.path.join(os.path.dirname(os.path.dirname(os.path.abspath(__file__))), 'units')
+
+    def sub(m):
+        t = open(os.path.join(units_dir, m.group(1))).read()
+        a = t.find('// @@' + m.group(2))
+        b = t.find('// @@' + m.group(3))
+        if a < 0 or b < 0 or b < a:
+            raise ExtractError(f'include: markers {m.group(2)}..{m.group(3)} not found in {m.group(1)}')
+        return t[t.index('\n', a) + 1:b]
+    return _INC.sub(sub, template_text)
+
+
 def build_unit(repo, template_text):
     """Returns (unit_text, Extracted)."""
+    template_text = _expand_includes(template_text)
     ex = Extracted()
     out = []
     pos = 0
